@@ -117,7 +117,12 @@ func (e *c13env) try(fam, kind, input string, readOnly bool, f func() error) {
 			// the rejected request failed inside a list entry it had just created, before that entry's key leaf was written
 			cls = "keyless-entry-left-behind"
 		}
-		c.Violate("store-unreadable/"+cls+"/"+fam, "after the %s request (%s, result: %v) reading the store fails: %v\ninput: %s\nstore: %s", fam, kind, err, xerr, quoteHead(input, 800), e.store.Describe())
+		sig := "store-unreadable/" + cls + "/" + fam
+		if cls == "keyless-entry-left-behind" {
+			// one defect whatever kind of document the rejected request was (JSON, XML, a shape mismatch, an edit through a selection)
+			sig = "store-unreadable/" + cls
+		}
+		c.Violate(sig, "after the %s request (%s, result: %v) reading the store fails: %v\ninput: %s\nstore: %s", fam, kind, err, xerr, quoteHead(input, 800), e.store.Describe())
 	}
 	e.reset()
 }
